@@ -1,0 +1,149 @@
+//go:build verif
+
+// Contracts for govc (see /verif/DESIGN.md). Comment-only; compiled only with -tags verif.
+
+package hybridbuffer
+
+//@ property C03 C19 C04
+
+// ==== ghost state =====================================================================================================================
+// Metrics are ghost integers mval[m] (trusted promext contracts); files are fexists/fsize/fcontent keyed by the chunk ID.
+// resolved: ghost count of resolution events — a chunk saved to disk, dropped (counted), found corrupt (counted), consumed or
+// left over. Together with the send/receive counters of the two channels it states "every chunk taken is resolved exactly
+// once" for each sequential piece of code.
+//@ ghost var resolved int
+
+// trusted: the output's chunk-ID matcher is a pure function of the name
+//@ pure func idmatch(f int, k int) bool
+//@ fieldspec chunkOperator.matchChunkID(s string) bool
+//@   ensures result == idmatch(self, key(s))
+
+// ==== chunkOperator ===================================================================================================================
+//@ pure func pbytes(op *chunkOperator) int := mval[ref(op.metrics.persistentChunkBytes)]
+//@ pure func pcount(op *chunkOperator) int := mval[ref(op.metrics.persistentChunks)]
+//@ pure func validop(op *chunkOperator) bool := op != nil && validopv(*op)
+//@ pure func validopv(op chunkOperator) bool :=
+//@     op.metrics.persistentChunks != nil && op.metrics.persistentChunkBytes != nil && op.metrics.ioErrorsTotal != nil && op.matchChunkID != nil
+//@  && ref(op.metrics.persistentChunks) != ref(op.metrics.persistentChunkBytes) && ref(op.metrics.persistentChunks) != ref(op.metrics.ioErrorsTotal)
+//@  && ref(op.metrics.persistentChunkBytes) != ref(op.metrics.ioErrorsTotal)
+
+// "chunk is marked saved and its memory released only if the write reported success"; quota: the byte gauge never exceeds
+// maxTotalBytes through a save; a failed save changes nothing about the chunk
+//@ func (op *chunkOperator) UnloadChunk(chunkRef *base.LogChunk) bool
+//@   requires validop(op) && chunkRef != nil && len(chunkRef.Data) < 4611686018427387904
+//@   modifies chunkRef.Data, chunkRef.Saved, mval[ref(op.metrics.persistentChunks)], mval[ref(op.metrics.persistentChunkBytes)], mval[ref(op.metrics.ioErrorsTotal)], fexists, fsize, fcontent, fdname
+//@   ensures[already-saved] old(chunkRef.Saved) ==> result && chunkRef.Saved && chunkRef.Data === old(chunkRef.Data) && pbytes(op) == old(pbytes(op)) && pcount(op) == old(pcount(op))
+//@   ensures[saved-means-complete-file] result && !old(chunkRef.Saved) ==> chunkRef.Saved && chunkRef.Data == nil && util.complete(key(chunkRef.ID), old(chunkRef.Data))
+//@   ensures[byte-gauge-and-quota] result && !old(chunkRef.Saved) ==> pbytes(op) == old(pbytes(op)) + len(old(chunkRef.Data)) && pbytes(op) <= op.maxTotalBytes && pcount(op) == old(pcount(op)) + 1
+//@   ensures[failed-save-changes-nothing] !result ==> chunkRef.Saved == old(chunkRef.Saved) && chunkRef.Data === old(chunkRef.Data) && pbytes(op) == old(pbytes(op)) && pcount(op) == old(pcount(op))
+//@   canary ensures result ==> pbytes(op) == old(pbytes(op))
+
+//@ func (op *chunkOperator) LoadChunk(chunkRef *base.LogChunk) bool
+//@   requires validop(op) && chunkRef != nil
+//@   modifies chunkRef.Data, mval[ref(op.metrics.ioErrorsTotal)], fdname
+//@   ensures[loaded-is-what-is-on-disk] result && old(chunkRef.Data) == nil ==> chunkRef.Saved && chunkRef.Data != nil && len(chunkRef.Data) <= fsize[key(chunkRef.ID)]
+//@        && forall i int :: 0 <= i && i < len(chunkRef.Data) ==> chunkRef.Data[i] == fcontent[key(chunkRef.ID)][i]
+//@   ensures[already-loaded-untouched] old(chunkRef.Data) != nil ==> result && chunkRef.Data === old(chunkRef.Data)
+//@   ensures  !result ==> chunkRef.Data === old(chunkRef.Data)
+//@   ensures  chunkRef.Saved == old(chunkRef.Saved)
+
+//@ func (op *chunkOperator) RemoveChunk(chunk base.LogChunk)
+//@   requires validop(op)
+//@   modifies mval[ref(op.metrics.persistentChunks)], mval[ref(op.metrics.persistentChunkBytes)], mval[ref(op.metrics.ioErrorsTotal)], fexists[key(chunk.ID)]
+//@   ensures[unsaved-has-no-file-to-remove] !chunk.Saved ==> pbytes(op) == old(pbytes(op)) && fexists[key(chunk.ID)] == old(fexists[key(chunk.ID)])
+//@   ensures[file-gone-and-gauges-follow] pcount(op) == old(pcount(op)) - 1 ==> !fexists[key(chunk.ID)] && pbytes(op) == old(pbytes(op)) - len(chunk.Data)
+//@   ensures  pcount(op) == old(pcount(op)) || pcount(op) == old(pcount(op)) - 1
+
+// recovery: the byte gauge grows by the size of the recovered file
+//@ func (op *chunkOperator) OnChunkRecovered(chunk base.LogChunk)
+//@   requires validop(op)
+//@   modifies mval[ref(op.metrics.persistentChunks)], mval[ref(op.metrics.persistentChunkBytes)], mval[ref(op.metrics.ioErrorsTotal)]
+//@   ensures  pcount(op) == old(pcount(op)) + 1
+//@   ensures[bytes-grow-by-file-size] pbytes(op) == old(pbytes(op)) || (fexists[key(chunk.ID)] && pbytes(op) == old(pbytes(op)) + fsize[key(chunk.ID)])
+
+//@ func (op *chunkOperator) OnChunkDropped(chunk base.LogChunk)
+//@   requires validop(op)
+//@   modifies mval[ref(op.metrics.persistentChunks)], mval[ref(op.metrics.persistentChunkBytes)]
+
+// only names accepted by the output's chunk-ID matcher are recovered, never the .id file; recovered chunks are unloaded
+//@ func (op *chunkOperator) ScanExistingChunks() []base.LogChunk
+//@   requires validop(op)
+//@   modifies mval[ref(op.metrics.ioErrorsTotal)], mem(string), op.maybeDir.*
+//@   ensures[only-matching-names] forall i int :: 0 <= i && i < len(result) ==> result[i].Saved && result[i].Data == nil && idmatch(ref(op.matchChunkID), key(result[i].ID)) && result[i].ID != ".id"
+//@   loop 1: invariant -1 <= rangeindex && isfresh(chunkList) || len(chunkList) == 0
+//@   loop 1: invariant forall i int :: 0 <= i && i < len(chunkList) ==> chunkList[i].Saved && chunkList[i].Data == nil && idmatch(ref(op.matchChunkID), key(chunkList[i].ID)) && chunkList[i].ID != ".id"
+
+// ==== chunkManager: the balance of C19 and the truth of its counters ===========================================================================
+//@ pure func mpending(m *chunkManager) int := mval[ref(m.metrics.pendingChunks)]
+//@ pure func mconsumed(m *chunkManager) int := mval[ref(m.metrics.consumedChunksTotal)]
+//@ pure func mleftover(m *chunkManager) int := mval[ref(m.metrics.leftoverChunksTotal)]
+//@ pure func mdropped(m *chunkManager) int := mval[ref(m.metrics.droppedChunksTotal)]
+//@ pure func minput(m *chunkManager) int := mval[ref(m.metrics.inputChunksTotalTransient)] + mval[ref(m.metrics.inputChunksTotalPersistent)]
+// accepted = delivered + left on disk + dropped (+ still pending)
+//@ pure func bal(m *chunkManager) int := minput(m) - mconsumed(m) - mleftover(m) - mdropped(m) - mpending(m)
+//@ pure func validman(m *chunkManager) bool :=
+//@     m != nil && validopv(m.operator) && m.metrics.pendingChunks != nil && m.metrics.inputChunksTotalTransient != nil && m.metrics.inputChunksTotalPersistent != nil
+//@  && m.metrics.consumedChunksTotal != nil && m.metrics.leftoverChunksTotal != nil && m.metrics.droppedChunksTotal != nil
+//@  && distinct6(ref(m.metrics.pendingChunks), ref(m.metrics.inputChunksTotalTransient), ref(m.metrics.inputChunksTotalPersistent), ref(m.metrics.consumedChunksTotal), ref(m.metrics.leftoverChunksTotal), ref(m.metrics.droppedChunksTotal))
+//@  && distinctfrom3(ref(m.metrics.pendingChunks), m) && distinctfrom3(ref(m.metrics.inputChunksTotalTransient), m) && distinctfrom3(ref(m.metrics.inputChunksTotalPersistent), m)
+//@  && distinctfrom3(ref(m.metrics.consumedChunksTotal), m) && distinctfrom3(ref(m.metrics.leftoverChunksTotal), m) && distinctfrom3(ref(m.metrics.droppedChunksTotal), m)
+//@ pure func distinct6(a int, b int, c int, d int, e int, f int) bool :=
+//@     a != b && a != c && a != d && a != e && a != f && b != c && b != d && b != e && b != f && c != d && c != e && c != f && d != e && d != f && e != f
+//@ pure func distinctfrom3(x int, m *chunkManager) bool :=
+//@     x != ref(m.operator.metrics.persistentChunks) && x != ref(m.operator.metrics.persistentChunkBytes) && x != ref(m.operator.metrics.ioErrorsTotal)
+
+// every On* callback keeps the balance; what a counter says is true: "consumed" = its file is gone, "leftover" = left on
+// disk, "dropped"/"corrupted" = counted as dropped. Each of them is one resolution event.
+//@ func (man *chunkManager) OnChunkInput(loaded bool)
+//@   requires validman(man)
+//@   modifies mval[ref(man.metrics.pendingChunks)], mval[ref(man.metrics.inputChunksTotalTransient)], mval[ref(man.metrics.inputChunksTotalPersistent)]
+//@   ensures[balance] bal(man) == old(bal(man)) && mpending(man) == old(mpending(man)) + 1 && minput(man) == old(minput(man)) + 1
+
+//@ func (man *chunkManager) OnChunkInputRecovered(chunk base.LogChunk)
+//@   requires validman(man)
+//@   modifies mval[ref(man.metrics.pendingChunks)], mval[ref(man.metrics.inputChunksTotalPersistent)], mval[ref(man.operator.metrics.persistentChunks)], mval[ref(man.operator.metrics.persistentChunkBytes)], mval[ref(man.operator.metrics.ioErrorsTotal)]
+//@   ensures[balance] bal(man) == old(bal(man)) && mpending(man) == old(mpending(man)) + 1
+
+//@ func (man *chunkManager) OnChunkConsumed(chunk base.LogChunk)
+//@   requires validman(man)
+//@   modifies resolved, mval[ref(man.metrics.pendingChunks)], mval[ref(man.metrics.consumedChunksTotal)], mval[ref(man.operator.metrics.persistentChunks)], mval[ref(man.operator.metrics.persistentChunkBytes)], mval[ref(man.operator.metrics.ioErrorsTotal)], fexists[key(chunk.ID)]
+//@   ghostset resolved := resolved + 1
+//@   ensures[balance] bal(man) == old(bal(man)) && mconsumed(man) == old(mconsumed(man)) + 1 && mpending(man) == old(mpending(man)) - 1 && resolved == old(resolved) + 1
+
+//@ func (man *chunkManager) OnChunkLeftover(chunk base.LogChunk)
+//@   requires validman(man) && len(chunk.Data) < 4611686018427387904
+//@   modifies resolved, mval[ref(man.metrics.pendingChunks)], mval[ref(man.metrics.leftoverChunksTotal)], mval[ref(man.metrics.droppedChunksTotal)], mval[ref(man.operator.metrics.persistentChunks)], mval[ref(man.operator.metrics.persistentChunkBytes)], mval[ref(man.operator.metrics.ioErrorsTotal)], fexists, fsize, fcontent, fdname
+//@   ensures[balance] bal(man) == old(bal(man)) && mpending(man) == old(mpending(man)) - 1 && resolved == old(resolved) + 1
+//@   ensures[one-of-leftover-or-dropped] mleftover(man) + mdropped(man) == old(mleftover(man) + mdropped(man)) + 1
+//@   ensures[leftover-means-left-on-disk] mleftover(man) == old(mleftover(man)) + 1 ==> chunk.Saved || util.complete(key(chunk.ID), chunk.Data)
+
+//@ func (man *chunkManager) OnChunkCorrupted(chunk base.LogChunk)
+//@   requires validman(man)
+//@   modifies resolved, mval[ref(man.metrics.pendingChunks)], mval[ref(man.metrics.droppedChunksTotal)], mval[ref(man.operator.metrics.persistentChunks)], mval[ref(man.operator.metrics.persistentChunkBytes)], mval[ref(man.operator.metrics.ioErrorsTotal)], fexists[key(chunk.ID)]
+//@   ghostset resolved := resolved + 1
+//@   ensures[balance] bal(man) == old(bal(man)) && mdropped(man) == old(mdropped(man)) + 1 && mpending(man) == old(mpending(man)) - 1 && resolved == old(resolved) + 1
+
+//@ func (man *chunkManager) OnChunkDropped(chunk base.LogChunk)
+//@   requires validman(man)
+//@   modifies resolved, mval[ref(man.metrics.pendingChunks)], mval[ref(man.metrics.droppedChunksTotal)], mval[ref(man.operator.metrics.persistentChunks)], mval[ref(man.operator.metrics.persistentChunkBytes)]
+//@   ghostset resolved := resolved + 1
+//@   ensures[balance] bal(man) == old(bal(man)) && mdropped(man) == old(mdropped(man)) + 1 && mpending(man) == old(mpending(man)) - 1 && resolved == old(resolved) + 1
+
+// saved to disk, or dropped AND counted: never silently discarded
+//@ func (man *chunkManager) UnloadOrDropChunk(chunkRef *base.LogChunk) bool
+//@   requires validman(man) && chunkRef != nil && len(chunkRef.Data) < 4611686018427387904
+//@   modifies resolved, chunkRef.Data, chunkRef.Saved, mval[ref(man.metrics.pendingChunks)], mval[ref(man.metrics.droppedChunksTotal)], mval[ref(man.operator.metrics.persistentChunks)], mval[ref(man.operator.metrics.persistentChunkBytes)], mval[ref(man.operator.metrics.ioErrorsTotal)], fexists, fsize, fcontent, fdname
+//@   ghostset resolved := (result ? resolved + 1 : resolved)
+//@   ensures[saved-or-counted-as-dropped] resolved == old(resolved) + 1 && (result ==> chunkRef.Saved && mdropped(man) == old(mdropped(man)) && mpending(man) == old(mpending(man)))
+//@        && (!result ==> mdropped(man) == old(mdropped(man)) + 1 && mpending(man) == old(mpending(man)) - 1)
+//@   ensures[balance] bal(man) == old(bal(man))
+//@   ensures  result && !old(chunkRef.Saved) ==> chunkRef.Data == nil && util.complete(key(chunkRef.ID), old(chunkRef.Data))
+//@   ensures  result && old(chunkRef.Saved) ==> chunkRef.Data === old(chunkRef.Data)
+
+//@ func (man *chunkManager) LoadOrDropChunk(chunkRef *base.LogChunk) bool
+//@   requires validman(man) && chunkRef != nil
+//@   modifies resolved, chunkRef.Data, mval[ref(man.metrics.pendingChunks)], mval[ref(man.metrics.droppedChunksTotal)], mval[ref(man.operator.metrics.persistentChunks)], mval[ref(man.operator.metrics.persistentChunkBytes)], mval[ref(man.operator.metrics.ioErrorsTotal)], fdname
+//@   ensures[loaded-or-counted-as-dropped] (result ==> resolved == old(resolved) && chunkRef.Data != nil) && (!result ==> resolved == old(resolved) + 1 && mdropped(man) == old(mdropped(man)) + 1)
+//@   ensures[balance] bal(man) == old(bal(man))
+//@   ensures  chunkRef.Saved == old(chunkRef.Saved) && (old(chunkRef.Data) != nil ==> chunkRef.Data === old(chunkRef.Data))
+//@   ensures  result && old(chunkRef.Data) == nil ==> len(chunkRef.Data) <= fsize[key(chunkRef.ID)] && forall i int :: 0 <= i && i < len(chunkRef.Data) ==> chunkRef.Data[i] == fcontent[key(chunkRef.ID)][i]
